@@ -76,7 +76,9 @@ def sensitivity(only=None):
                 if "violation class=" in line:
                     cls = line.split("violation class=")[1].split()[0]
                 res[cid] = (parts[0], cls)
-        caught = any(v[0] == "CAUGHT" for k, v in res.items() if k == m["property"])
+        # (a change that needs a fault / schedule outside its own property's quantifier names the check that owns it)
+        owners = m.get("decided_by") or [m["property"]]
+        caught = any(v[0] == "CAUGHT" for k, v in res.items() if k in owners)
         print("%s: %s  %s" % (m["id"], "caught" if caught else "MISSED", res))
         sys.stdout.flush()
         m["last_sensitivity_run"] = {k: {"outcome": v[0], "violation_class": v[1]} for k, v in res.items()}
